@@ -106,7 +106,7 @@ fn gen_case(dna: &[u8], cfg: &crate::gen::GenCfg) -> Case {
 	let mut d = Dna::new(dna);
 	let sched_dna: Vec<u8> = (0..8).map(|_| d.u8()).collect();
 	let unknown = d.u8();
-	let m = crate::gen::gen_model(&mut d, cfg);
+	let m = super::gen_model_mixed(&mut d, cfg, true);
 	let mut raw = m.raw();
 	if unknown >= 200 {
 		// a few unknown events between known ones (they must not disturb frame completion)
